@@ -505,7 +505,7 @@ static inline int64_t GenIntVal(Rng & g, int vt)
    if (vt == VT_BOOL) return g.R(2);
    const int bits = IntBits(vt); const int64_t mx = bits == 64 ? INT64_MAX : ((1LL << (bits - 1)) - 1), mn = -mx - 1;
    switch (g.R(10)) {
-      case 0: { static const int64_t b[] = {0, 0, 0, 1, 1, 2}; const int64_t ch[] = {mn, mn + 1, mx, mx - 1, mx / 2 + 1, -(mx / 2)}; (void)b; return ch[g.R(6)]; }
+      case 0: { const int64_t ch[] = {mn, mn + 1, mx, mx - 1, mx / 2 + 1, -(mx / 2)}; return ch[g.R(6)]; }
       case 1: case 2: { static const int64_t p[] = {18, 21, 20, 22, 100, 99, 53, 127, -128, 255, 1234}; return SignExt(p[g.R(11)], bits); }
       case 3: return SignExt((int64_t)g.next(), bits);
       default: return (int64_t)g.R(7) - 3;
@@ -545,8 +545,6 @@ static inline std::string GenStr(Rng & g, bool allowEmpty)
       if (g.R(5) < 2) s = words[g.R(sizeof(words) / sizeof(words[0]))];
       else { static const char al[] = "aAbB"; const uint32 n = g.R(5); for (uint32 i = 0; i < n; i++) s.push_back(al[g.R(4)]); }
       if (!s.empty() || (allowEmpty && g.R(3) == 0)) return s;
-      if (allowEmpty == false && s.empty()) continue;
-      if (s.empty()) continue;
    }
 }
 static inline std::string GenBytes(Rng & g, bool allowEmpty)
